@@ -411,6 +411,13 @@ class FreeEnergy(InterpolatableFunction):
                         f"vev={ode.y}"
                     )
                     break
+                lastTabulatedT = TList[-1] if TList.size > 0 else T0
+                if ode.status == "running" and abs(ode.t - lastTabulatedT) < 1e-2 * dT:
+                    # Steps much shorter than dT (the solver's first step, or its
+                    # collapsing steps next to a spinodal) are not tabulated: two nearly
+                    # coincident abscissae make the spline derivatives amplify rounding
+                    # noise. The integration itself continues from the accepted step.
+                    continue
                 if (
                     ode.status == "finished"
                     and TList.size > 1
